@@ -15,8 +15,9 @@ under which it is *harmful* (only then a finding is reported):
 * a **cache decorator** (lru_cache, cache, memoize ...) - the key is the
   whole argument list, so it is harmful only when the function is not a
   function of its arguments (draws from a random generator, reads mutable
-  module state or attributes of ``self``), or when a caller changes the
-  returned object in place (the cached object is shared).
+  module state or attributes of ``self``, reads files / directories /
+  the clock), or when a caller changes the returned object in place (the
+  cached object is shared).
 * a **module-level container written from inside a function** (a hand-made
   cache or registry) - harmful as soon as it is written: the key of a
   hand-made cache need not cover the inputs, and its content outlives the
@@ -177,6 +178,36 @@ def default_is_state(prog, func, pname):
     return None
 
 
+_IO_CALLS = ("builtins.open", "io.open", "gzip.open", "os.listdir",
+             "os.scandir", "os.stat", "os.path.exists", "os.path.getsize",
+             "os.path.getmtime", "os.path.isfile", "glob.glob", "glob.iglob",
+             "sqlite3.connect", "pyarrow.parquet.read_table",
+             "pyarrow.parquet.ParquetFile", "pyarrow.parquet.read_schema",
+             "pyarrow.parquet.read_metadata", "lxml.etree.iterparse",
+             "lxml.etree.parse", "os.environ.get", "os.getenv",
+             "time.time", "datetime.datetime.now")
+_IO_METHODS = ("read_text", "read_bytes", "glob", "rglob", "iterdir",
+               "exists", "is_file", "is_dir", "stat", "readline",
+               "readlines", "get_column_names", "get_column_types",
+               "read_data", "get_chunked_data_iterator", "iter_batches")
+
+
+def _reads_outside_world(t):
+    """description of the external state a call term reads, or None"""
+    if t[0] == "call":
+        q = t[1]
+        if q in _IO_CALLS:
+            return f"external state ({q})"
+        if q.startswith("pandas.read_") or q.startswith("numpy.load") or \
+                q in ("numpy.loadtxt", "numpy.genfromtxt"):
+            return f"a file ({q})"
+        if q.endswith("TabularDataReader.from_path"):
+            return f"a file ({q.rsplit('.', 2)[-2]})"
+    if t[0] == "mcall" and t[2] in _IO_METHODS:
+        return f"external state (.{t[2]}())"
+    return None
+
+
 def cache_is_harmful(prog, func):
     """Why caching the results of ``func`` can change a later result, or
     None when the function is a function of its (hashable) arguments and no
@@ -190,6 +221,11 @@ def cache_is_harmful(prog, func):
     for n in walk_own(func.node):
         if isinstance(n, ast.Call):
             t = T.of(n)
+            io = _reads_outside_world(t)
+            if io:
+                return (f"it reads {io}: what is read can change between "
+                        "two calls with the same arguments (a file replaced "
+                        "at the same path), the cached answer cannot")
             if t[0] == "call" and (t[1].startswith("numpy.random")
                                    or t[1].startswith("random.")):
                 return "it draws from a global random generator"
@@ -225,6 +261,21 @@ def cache_is_harmful(prog, func):
                             f"place (line {getattr(node, 'lineno', '?')}): "
                             "the change is seen by every later call")
     return None
+
+
+def might_carry_state(prog, func):
+    """Cheap pre-filter: can ``func`` be one of the three carriers at all?
+    (a mutable default, a cache decorator, or a mention of the name of a
+    module-level mutable object of its own module)"""
+    if isinstance(func.node, ast.Lambda):
+        return False
+    if mutable_defaults(func) or cache_decorators(func):
+        return True
+    own = _mutable_globals(func.module)
+    if not own:
+        return False
+    return any(isinstance(n, ast.Name) and n.id in own
+               for n in walk_own(func.node))
 
 
 def check_no_cross_call_state(ctx, rule, funcs, what):
